@@ -9,7 +9,7 @@ from pathlib import Path
 import z3
 
 from . import contracts as C
-from . import lib_fs, lib_np  # noqa: F401  (register library models)
+from . import lib_arr, lib_fs, lib_np  # noqa: F401  (register library models)
 from . import solve
 from .engine import Contract, Exec, Obligation, Unsupported, Verifier
 from .source import INDEX
@@ -165,7 +165,7 @@ def verify_into(ctx, files: list[str], targets: list[str] | None = None, *, time
             o = index[oid]
             t1 = time.time()
             try:
-                ok, why = refute.refute(o.pc, o.goal)
+                ok, why = refute.refute(o.pc, o.goal, timeout_ms=5000, rounds=2)
             except z3.Z3Exception as e:
                 ok, why = False, f"refuter error: {e}"
             if ok:
@@ -175,7 +175,7 @@ def verify_into(ctx, files: list[str], targets: list[str] | None = None, *, time
     # one retry at 4x budget for unknowns
     retry = [(oid, smt) for oid, smt, _core in items if results[oid].status == "unknown"]
     if retry:
-        for r in solve.discharge(retry, timeout_ms * 4, seed() + 1):
+        for r in solve.discharge(retry, timeout_ms * (2 if tier == "quick" else 4), seed() + 1):
             if r.status != "unknown":
                 results[r.oid] = r
     # reachability (vacuity): a path whose condition is unsatisfiable is unreachable
